@@ -46,6 +46,8 @@ RX_THEN = re.compile(r"bool::<impl bool>::then$")
 RX_THENSOME = re.compile(r"bool::<impl bool>::then_some$")
 RX_ITERMAP = re.compile(r"iter::Iterator::map$")
 RX_NEXT = re.compile(r"iter::Iterator::next$")
+RX_VECNEW = re.compile(r"vec::Vec::<T>::(new|with_capacity)$")
+RX_VECPUSH = re.compile(r"vec::Vec::<T, A>::push$")
 RX_QITER = re.compile(r"RepAsIteratorExt::quote_into_iter$")
 # calls that hand on the very same sequence of items / the same value (used only to look through
 # iterator plumbing when naming the element of a repetition)
@@ -207,6 +209,47 @@ def walk_toks(toks, guards=True):
                 yield from walk_toks(x, guards)
 
 
+def rewrite(t, f):
+    """Copy of term t in which every sub-term x with f(x) is not None is replaced by f(x) (outermost first;
+    token streams are left as they are)."""
+    r = f(t)
+    if r is not None:
+        return r
+    k = t[0]
+    rw = lambda x: rewrite(x, f)
+    if k == "call":
+        return ("call", t[1], tuple(rw(a) for a in t[2])) + tuple(t[3:])
+    if k in ("field", "as"):
+        return (k, rw(t[1]), t[2])
+    if k in ("some", "item", "discr", "cast"):
+        return (k, rw(t[1]))
+    if k == "agg":
+        return ("agg", t[1], t[2], tuple(rw(a) for a in t[3]))
+    if k in ("tuple", "array"):
+        return (k, tuple(rw(a) for a in t[1]))
+    if k == "closure":
+        return ("closure", t[1], tuple(rw(a) for a in t[2]))
+    if k == "alt":
+        return ("alt", tuple((tuple((rw(gt), gv) for gt, gv in g), rw(x)) for g, x in t[1]))
+    if k in ("opt", "then", "itermap"):
+        return (k, rw(t[1]), rw(t[2]))
+    if k == "unop":
+        return (k, t[1], rw(t[2]))
+    if k == "binop":
+        return (k, t[1], rw(t[2]), rw(t[3]))
+    return t
+
+
+def flat_arms(t, pre=()):
+    """[(guards, value)] of a value chosen by (possibly nested) alternatives; a plain value is one arm."""
+    if t[0] != "alt":
+        return [(tuple(pre), t)]
+    out = []
+    for g, x in t[1]:
+        out.extend(flat_arms(x, tuple(pre) + tuple(g)))
+    return out
+
+
 def path_of(t):
     """("param", i, name).a.b  ->  (i, ("a","b")); derefs/casts are transparent.  None if not a pure path."""
     names = []
@@ -310,6 +353,19 @@ def strip_plumb(t, extra=None):
             t = t[1]
         else:
             return t
+
+
+RX_STRCONV = re.compile(r"(string::ToString::to_string|borrow::ToOwned::to_owned)$")
+RX_STRFROM = re.compile(r"^<(std|alloc)::string::String as (std|core)::convert::From<&('\S+ )?(mut )?str>>::from$|^<&('\S+ )?str as (std|core)::convert::Into<(std|alloc)::string::String>>::into$")
+
+
+def is_str_to_string(t):
+    """`s.to_string()`, `s.to_owned()`, `String::from(s)`, `s.into()` for a string slice: the same conversion."""
+    if t[0] != "call" or len(t[2]) != 1:
+        return False
+    if RX_STRCONV.search(t[1]):
+        return True
+    return bool(re.search(r"convert::(From::from|Into::into)$", t[1]) and t[3] and RX_STRFROM.search(t[3]))
 
 
 def mk_item(y):
@@ -592,6 +648,10 @@ class QuoteEval:
         whole = [d for d in ds if self._whole(d)]
         if len(whole) == 1 and whole[0][1] == "call" and RX_TSNEW.match(whole[0][2].get("callee") or ""):
             return self.ev_builder(frame, l, whole[0][0])
+        if len(ds) == 1 and whole and whole[0][1] == "call" and RX_VECNEW.search(whole[0][2].get("callee") or ""):
+            v = self.ev_vec(frame, l, whole[0])
+            if v is not None:
+                return v
         if len(ds) == 1 and whole:
             return self.ev_def(frame, ds[0])
         alts = []
@@ -608,6 +668,52 @@ class QuoteEval:
             if common:
                 alts = [(tuple(a for a in g if a not in common), x) for g, x in alts]
         return ("alt", tuple(alts))
+
+    def ev_vec(self, frame, l, d):
+        """A vector created empty and filled by `push` inside one `for` loop is the collected
+        `iter.map(|item| pushed value)` (with `filter` when the push is conditional): returns the same
+        ("itermap", source, body) term as the iterator chain.  None: the local is never pushed to (plain
+        value); ("unknown", ..): it is mutated in a way that is not modelled."""
+        fn = frame.fn
+        reach = fn.reachable(0)
+        muts = []
+        for bb, i, st in fn.stmts():
+            rv = st["rv"]
+            if bb in reach and not fn.blocks[bb]["cleanup"] and rv["rv"] == "ref" and rv.get("mut") and rv["pl"]["l"] == l and not [e for e in rv["pl"]["p"] if e != "*"]:
+                muts.append((bb, st["pl"]["l"]))
+        if not muts:
+            return None
+        pushes = []
+        for bb, t in fn.calls():
+            if bb not in reach or not t["args"]:
+                continue
+            hit = [a for a in t["args"] if a.get("k") in ("copy", "move") and re.match(r"&('\S+ )?mut ", fn.local_ty(a["pl"]["l"])) and not a["pl"]["p"] and self.root_local(fn, a) == l]
+            if not hit:
+                continue
+            if RX_VECPUSH.search(t.get("callee") or "") and len(t["args"]) == 2 and self.root_local(fn, t["args"][0]) == l:
+                pushes.append((bb, t))
+            else:
+                return ("unknown", "vector mutated by %s" % short(t.get("callee") or "<indirect>"))
+        if not pushes:
+            return ("unknown", "vector borrowed mutably")
+        loops = fn.loop_blocks()
+        if len(pushes) != 1 or pushes[0][0] not in loops:
+            return ("unknown", "vector filled by %d pushes outside a single loop" % len(pushes))
+        bb, t = pushes[0]
+        gs = self.guards_of(frame, bb)
+        outer = self.guards_of(frame, d[0])
+        drv = [i for i, (gt, gv) in enumerate(gs) if gv == "Some" and gt[0] == "call" and RX_NEXT.search(gt[1]) and gt[2] and len(gt) == 5 and gt[4] in loops]
+        if not drv:
+            return ("unknown", "vector filled in a loop that is not driven by Iterator::next")
+        k = drv[-1]
+        if [g for g in gs[:k] if g not in outer]:
+            return ("unknown", "vector filled in a conditional loop")
+        src = gs[k][0][2][0]
+        body = self.ev_op(frame, t["args"][1])
+        extra = tuple(gs[k + 1:])
+        if extra:
+            body = ("alt", ((extra, body), ((), ("agg", "std::option::Option", "None", ()))))
+        return ("itermap", src, body)
 
     @staticmethod
     def _through_deref(d):
@@ -717,10 +823,13 @@ class QuoteEval:
             cons |= set(fn.returns())
         toks = []
         cur_loop = None
+        # a stream that is itself created inside a loop (one stream per iteration, e.g. pushed to a vector): only
+        # cycles that do not pass through its creation repeat an emission *within* the stream
+        cut = [created_bb] if created_bb is not None and created_bb in loops else []
         for bb, kind, _, t, pname in evs:
             tok = self.event_token(frame, kind, t, pname)
-            if bb in loops:
-                if cur_loop is not None and bb in fn.reachable(cur_loop[0]) and cur_loop[0] in fn.reachable(bb):
+            if bb in loops and (not cut or any(bb in fn.reachable(sx, avoid=cut) for sx in fn.succ(bb))):
+                if cur_loop is not None and bb in fn.reachable(cur_loop[0], avoid=cut) and cur_loop[0] in fn.reachable(bb, avoid=cut):
                     cur_loop[1].append(tok)
                 else:
                     cur_loop = (bb, [tok])
@@ -771,6 +880,92 @@ class QuoteEval:
     def template(self, fn, local=0, args=None):
         t, fr = self.value(fn, local, args)
         return expand_term(t)
+
+
+# --------------------------------------------------------------------------- variant-sensitive reachability
+def _variant_index(fn, adt, variant):
+    a = fn.facts.adts.get(adt)
+    if a and a.get("kind") == "enum":
+        for i, v in enumerate(a["variants"]):
+            if v["name"] == variant:
+                return i
+    return {("std::result::Result", "Ok"): 0, ("std::result::Result", "Err"): 1, ("std::option::Option", "None"): 0,
+            ("std::option::Option", "Some"): 1}.get((adt, variant))
+
+
+def variant_reach(fn, start, max_states=50000):
+    """Blocks reachable from block `start` when the enum variants built on the way are remembered per path:
+    a local assigned `Adt::Variant{..}` keeps that variant through moves, `Try::branch` turns Ok/Some into
+    Continue and Err/None into Break, and a switch on the discriminant of such a local follows the matching
+    edge only.  (`return Err(..)` inside an inlined helper followed by the caller's `?` thus reaches only the
+    caller's error exit.)  Anything not understood forgets the local, so the result over-approximates the
+    feasible blocks and under-approximates plain `fn.reachable`.  None: state budget exceeded."""
+    seen = set()
+    out = set()
+    work = [(start, frozenset())]
+    while work:
+        key = work.pop()
+        if key in seen:
+            continue
+        seen.add(key)
+        if len(seen) > max_states:
+            return None
+        bb, kn = key
+        out.add(bb)
+        known = dict(kn)
+        blk = fn.blocks[bb]
+        for st in blk["st"]:
+            if st.get("s") != "assign":
+                continue
+            pl, rv = st["pl"], st["rv"]
+            if rv["rv"] == "ref" and rv.get("mut"):
+                known.pop(rv["pl"]["l"], None)
+            if pl["p"]:
+                if pl["p"][0] != "*":
+                    known.pop(pl["l"], None)
+                continue
+            new = None
+            k = rv["rv"]
+            if k == "agg" and rv.get("agg") == "adt":
+                i = _variant_index(fn, rv["adt"], rv.get("variant"))
+                if i is not None:
+                    new = ("v", rv["adt"], i)
+            elif k == "use" and rv["op"].get("k") in ("copy", "move") and not rv["op"]["pl"]["p"]:
+                new = known.get(rv["op"]["pl"]["l"])
+            elif k == "discr" and not rv["pl"]["p"]:
+                v = known.get(rv["pl"]["l"])
+                if v is not None and v[0] == "v":
+                    new = ("d", v[2])
+            if new is not None:
+                known[pl["l"]] = new
+            else:
+                known.pop(pl["l"], None)
+        t = blk["term"]
+        succs = list(fn.succ(bb))
+        if t["t"] == "call":
+            d = t["dest"]
+            new = None
+            if (t.get("callee") or "").endswith("ops::Try::branch") and t["args"] and t["args"][0].get("k") in ("copy", "move") and not t["args"][0]["pl"]["p"]:
+                v = known.get(t["args"][0]["pl"]["l"])
+                if v is not None and v[0] == "v" and v[1] in ("std::result::Result", "std::option::Option"):
+                    brk = (v[1].endswith("Result") and v[2] == 1) or (v[1].endswith("Option") and v[2] == 0)
+                    new = ("v", "std::ops::ControlFlow", 1 if brk else 0)
+            if not d["p"] and new is not None:
+                known[d["l"]] = new
+            else:
+                known.pop(d["l"], None)
+        elif t["t"] == "switch" and len(succs) > 1 and t["discr"].get("k") in ("copy", "move") and not t["discr"]["pl"]["p"]:
+            v = known.get(t["discr"]["pl"]["l"])
+            if v is not None and v[0] == "d":
+                tgt = t["otherwise"]
+                for val, to in t["targets"]:
+                    if val == v[1]:
+                        tgt = to
+                succs = [tgt]
+        nk = frozenset(known.items())
+        for sx in succs:
+            work.append((sx, nk))
+    return out
 
 
 # --------------------------------------------------------------------------- expansion
